@@ -92,6 +92,23 @@ CONFIG = {
             "a CID absent from the listing counts as unpinned",
         ],
     },
+    "C11": {
+        "pkg": "c11",
+        "regress": "^TestRegress",
+        "legs": [
+            {"run": "^TestRaw$", "quick": (1500, 8), "thorough": (60000, 16)},
+            {"run": "^TestClient$", "quick": (500, 8), "thorough": (20000, 16)},
+        ],
+        "floors": {"raw-requests": {"nontrivial": 1500, "unauthorized": 1500, "malformed": 2000, "valid": 2500}, "client-library": {"nontrivial": 1500}},
+        "assumptions": [
+            QUIC,
+            "router canonicalisation redirects (3xx) are accepted when no cluster operation happened",
+            "user-allocations and mode values that the server documents as leniently parsed (unknown peers dropped, unknown mode = recursive) are not generated as 'invalid'",
+            "status filters are sent either fully valid or fully invalid (unknown names inside an otherwise valid filter are documented as ignored)",
+            "metric names come from the shipped set (ping, freespace, numpin)",
+            "POST /add is exercised by C12/C13; here only its method/auth handling is covered",
+        ],
+    },
     "C12": {
         "pkg": "c12",
         "regress": "^TestRegress",
